@@ -6,6 +6,9 @@ git -C /repo worktree add -q --detach $WT HEAD || exit 3
 DEMOS=$(ls $SRC/*.rs 2>/dev/null)
 CR=$(grep -oh "crates/[a-z_]*/tests" $SRC/README.md | sort | uniq -c | sort -rn | head -1 | awk '{print $2}')
 [ -z "$CR" ] && CR=crates/order_book/tests
+REL=""; grep -q -- "--release" $SRC/README.md && grep -qiE "(demo command|must be run|needs|requires?|only).*--release|--release.*(required|needed|only)" $SRC/README.md && REL="--release"
+[ -n "${FORCE_REL:-}" ] && REL="--release"
+export PYO3_PYTHON=/opt/veriftools/pyvenv/bin/python
 res_without=""; res_with=""
 for D in $DEMOS; do
   # a demo may name its crate in the README per file
@@ -13,16 +16,16 @@ for D in $DEMOS; do
   L=$(grep -h "$B" $SRC/README.md | grep -oh "crates/[a-z_]*/tests" | head -1); [ -n "$L" ] && C=$L
   mkdir -p $WT/$C; cp $D $WT/$C/seed_$B.rs
   PKG=$( [ "$C" = "crates/order_book/tests" ] && echo bourse-book || echo bourse-de )
-  (cd $WT && cargo test -p $PKG --test seed_$B --offline >/tmp/seedconf/$ID.$B.without.log 2>&1) && res_without="$res_without $B:pass" || res_without="$res_without $B:FAIL"
+  (cd $WT && cargo test -p $PKG --test seed_$B --offline $REL >/tmp/seedconf/$ID.$B.without.log 2>&1) && res_without="$res_without $B:pass" || res_without="$res_without $B:FAIL"
 done
 (cd $WT && git apply $SRC/patch.diff) || { echo "CONFIRM $ID patch does not apply"; exit 3; }
 for D in $DEMOS; do
   C=$CR; B=$(basename $D .rs)
   L=$(grep -h "$B" $SRC/README.md | grep -oh "crates/[a-z_]*/tests" | head -1); [ -n "$L" ] && C=$L
   PKG=$( [ "$C" = "crates/order_book/tests" ] && echo bourse-book || echo bourse-de )
-  (cd $WT && cargo test -p $PKG --test seed_$B --offline >/tmp/seedconf/$ID.$B.with.log 2>&1) && res_with="$res_with $B:pass" || res_with="$res_with $B:FAIL"
+  (cd $WT && cargo test -p $PKG --test seed_$B --offline $REL >/tmp/seedconf/$ID.$B.with.log 2>&1) && res_with="$res_with $B:pass" || res_with="$res_with $B:FAIL"
 done
-echo "CONFIRM $ID without-patch:$res_without | with-patch:$res_with"
+echo "CONFIRM $ID rel=[$REL] without-patch:$res_without | with-patch:$res_with"
 git -C /repo worktree remove --force $WT
 mkdir -p /verif/seeded/$ID; cp $SRC/patch.diff $SRC/README.md /verif/seeded/$ID/; cp $SRC/*.rs /verif/seeded/$ID/ 2>/dev/null
 echo "$res_without|$res_with" > /verif/seeded/$ID/.confirm
